@@ -15,7 +15,8 @@
  *                   |A - LL^T|    <= c gamma_{n+1} |L||L^T|
  *   solve / inverse column  |b - Ax| <= c gamma_{3n} (P^T|L||U|)|x|   (LDL, LLT: gamma_{3n+1}, same form)
  *   triangular sweeps (lower/upper) |b - Tx| <= c gamma_{n+1} |T||x|
- *   det: relative c gamma_{n+2} to the quad product of the stored pivots; lndet: c gamma_{n+2} sum|log|pivot||
+ *   det: relative c gamma_{n+2} (LLT, which squares the product: c gamma_{2n+2}) to the quad product of the stored pivots;
+ *   lndet: c gamma_{n+2} sum|log|pivot||
  * Measured with c = 1 (design probes): worst ratio 0.98 (LLT reconstruction) - do not tighten.
  * Residuals are accumulated in __float128 (products of two doubles are exact there), bounds in long double.
  */
@@ -664,6 +665,13 @@ static void fact_free(fact_t *f)
     f->W = NULL;
 }
 
+/* plain LDL^T (no pivoting) on matrices that are not positive definite - random indefinite, Hilbert beyond n ~ 12, rank
+   deficient - may legitimately produce huge or overflowing factors after a tiny pivot: non-finite results there are skipped */
+static int ldl_wild(fact_t const *f)
+{
+    return f->fam == FAM_LDL && (f->cls == S_INDEF || f->cls == S_SCALED || f->cls == S_NEARDEP || f->cls == S_TRIDIAG || f->cls == S_HILBERT);
+}
+
 static void viol2(char const *routine, char const *clause, char const *fmt, ...) __attribute__((format(printf, 3, 4)));
 static void viol2(char const *routine, char const *clause, char const *fmt, ...)
 {
@@ -1003,7 +1011,7 @@ static void factor(fact_t *f, int fam, unsigned cls, unsigned n, int expect, dou
     {
         /* plain LDL^T on a random indefinite matrix may legitimately overflow after a tiny pivot; everywhere else
            (|l| <= 1 under partial pivoting, l_rc^2 <= a_rr for SPD, exact integer data) a non-finite factor is wrong */
-        if (fam == FAM_LDL && (cls == S_INDEF || cls == S_SCALED || cls == S_NEARDEP || cls == S_TRIDIAG))
+        if (ldl_wild(f))
         {
             VF_COUNT("ldl-skipped-nonfinite-factor");
             return;
@@ -1098,7 +1106,7 @@ static void factor(fact_t *f, int fam, unsigned cls, unsigned n, int expect, dou
     if (!(ratio <= CSAFE))
     {
         viol2(rname, "reconstruction-outside-componentwise-bound",
-              "%s n=%u class=%s: entry (%u,%u) of %s: residual %.6e, bound c*gamma*|L||U| = %.6e (ratio to c=1 bound %.4g)", rname, n, f->cname, wr, wc,
+              "%s n=%u class=%s: entry (%u,%u) of %s: residual %.6e, bound c*gamma*W = %.6e (ratio to c=1 bound %.4g)", rname, n, f->cname, wr, wc,
               fam == FAM_PLU ? "PA-LU" : fam == FAM_LDL ? "A-LDL^T" : "A-LL^T", wres, wbound, ratio);
     }
     f->judged = 1;
@@ -1118,10 +1126,6 @@ static void mx(char const *fam, char const *what, double v)
     snprintf(nm, sizeof(nm), "%s%s", fam, what);
     if (!(v == v) || v > 1e300) { v = 1e300; }
     vf_max_dyn(nm, v, NULL);
-}
-static int ldl_wild(fact_t const *f)
-{
-    return f->fam == FAM_LDL && (f->cls == S_INDEF || f->cls == S_SCALED || f->cls == S_NEARDEP || f->cls == S_TRIDIAG);
 }
 
 static void call_lower(int fam, unsigned n, double const *F, double *y, int strided)
@@ -1283,13 +1287,13 @@ static void check_solves(fact_t *f, vf_rng *r, int rhs_kind)
         mx(fn, "_solve-residual-ratio", ratio);
         if (!(ratio <= CSAFE))
         {
-            viol2(rn, "residual-outside-bound", "%s n=%u class=%s: row %u of b - A x = %.6e, bound c*gamma_3n*(|L||U|)|x| = %.6e (ratio to c=1 bound %.4g)", rn, n, f->cname, wrow,
+            viol2(rn, "residual-outside-bound", "%s n=%u class=%s: row %u of b - A x = %.6e, bound c*gamma_3n*(W|x|) = %.6e (ratio to c=1 bound %.4g)", rn, n, f->cname, wrow,
                   wres, wbound, ratio);
         }
         if (finite && memcmp(x.v, y.v, n * sizeof(double)) == 0) { cnt(fn, "_solve-bitwise-equals-lower-upper-chain"); }
         if (vf_want_sample() && n >= 3 && n <= 5 && vf.case_no % 7 == 3)
         {
-            vf_sample("%s n=%u class=%s b[0..2]=(%g,%g,%g) x[0..2]=(%.17g,%.17g,%.17g): max |b-Ax| / (gamma_3n (|L||U|)|x|) = %.3g (allowed %g)", rn, n, f->cname, b[0], b[1], b[2],
+            vf_sample("%s n=%u class=%s b[0..2]=(%g,%g,%g) x[0..2]=(%.17g,%.17g,%.17g): max_i |b-Ax|_i / (gamma_3n (W|x|)_i) = %.3g, W = |L||U| resp. |L||D||L^T|, |L||L^T| (allowed %g)", rn, n, f->cname, b[0], b[1], b[2],
                       x.v[0], x.v[1], x.v[2], ratio, CSAFE);
         }
     }
@@ -1575,6 +1579,9 @@ static det_t check_det(fact_t *f)
     }
     if (fam == FAM_LLT) { prod *= prod; lsum *= 2; labs *= 2; }
     ld_t const g = gam(n + 2);
+    /* a_real_llt_det squares the product of the n diagonal entries: 2n-1 roundings, not n-1 (observed 1.001*gamma_{n+2}) */
+    unsigned const kdet = fam == FAM_LLT ? 2 * n + 2 : n + 2;
+    ld_t const gdet = gam(kdet);
 
     double det, lndet;
     int sgn = 0;
@@ -1585,13 +1592,13 @@ static det_t check_det(fact_t *f)
     inputs_intact(f, rn);
     if (in_range)
     {
-        double ratio = ratio_of((q_t)det - prod, g * (ld_t)fabsq(prod));
+        double ratio = ratio_of((q_t)det - prod, gdet * (ld_t)fabsq(prod));
         cnt(fn, "_det-equals-product-of-pivots");
         mx(fn, "_det-ratio", ratio);
         if (!(ratio <= CSAFE))
         {
-            viol2(rn, "not-product-of-pivots", "%s n=%u class=%s: returned %.17g, sign * product of the stored pivots = %.17g (ratio to gamma_{n+2} bound %.4g)", rn, n, f->cname, det,
-                  (double)prod, ratio);
+            viol2(rn, "not-product-of-pivots", "%s n=%u class=%s: returned %.17g, sign * product of the stored pivots = %.17g (ratio to gamma_%u bound %.4g)", rn, n, f->cname, det,
+                  (double)prod, kdet, ratio);
         }
         out.in_range = 1;
         out.det = det;
@@ -1617,7 +1624,7 @@ static det_t check_det(fact_t *f)
         {
             /* the two agree with one another: log|det| vs lndet, both within their bounds of the same pivots */
             q_t const d = fabsq(logq(fabsq((q_t)det)) - (q_t)lndet);
-            q_t const tol = (q_t)(CSAFE * g) * (labs + 2);
+            q_t const tol = (q_t)(CSAFE * gdet) * (labs + 2);
             cnt(fn, "_lndet-agrees-with-log-abs-det");
             if (!(d <= tol))
             {
@@ -1731,12 +1738,13 @@ static ld_t det_tolerance(fact_t const *f, qref_t const *R)
     }
     ld_t const e = (ld_t)CSAFE * gam(f->fam == FAM_LLT ? n + 1 : n) * tau;
     if (!(e < 0.01L)) { return -1; }
-    return expm1l(e) * (1 + (ld_t)CSAFE * gam(n + 2)) + (ld_t)CSAFE * gam(n + 2);
+    ld_t const gp = (ld_t)CSAFE * gam(f->fam == FAM_LLT ? 2 * n + 2 : n + 2); /* accuracy of the pivot product itself */
+    return expm1l(e) * (1 + gp) + gp;
 }
 
 /* ------------------------------------------------------------------ case plan */
 #define QUICK_CASES 20001u
-#define THOROUGH_CASES 1500000u
+#define THOROUGH_CASES 2000001u
 static uint64_t vf_ncases(int tier) { return tier ? THOROUGH_CASES : QUICK_CASES; }
 
 static void spd_det_agreement(fact_t *llt, det_t dl)
